@@ -113,3 +113,17 @@ Theorem C15_refuted_D153 : exists a init pre h,
   outcome (run only_D153 false a lg_zero init pre h) <> spec_run a (truth_after init pre) h.
 Proof. exact refuted_D153. Qed.
 Print Assumptions C15_refuted_D153.
+
+(* D154: default subsystem, state_hold and a second still-true change: the dictionary of the latest change is returned *)
+Theorem C15_refuted_D154 : exists a init pre h,
+  args_ok a /\ a_badexpr a = false /\ timed h /\
+  outcome (run only_D154 false a lg_zero init pre h) <> spec_run a (truth_after init pre) h.
+Proof. exact refuted_D154. Qed.
+Print Assumptions C15_refuted_D154.
+
+(* D155: default subsystem, an attribute-only update of the watched variable cancels the pending state_hold *)
+Theorem C15_refuted_D155 : exists a init pre h,
+  args_ok a /\ a_badexpr a = false /\ timed h /\
+  outcome (run only_D155 false a lg_zero init pre h) <> spec_run a (truth_after init pre) h.
+Proof. exact refuted_D155. Qed.
+Print Assumptions C15_refuted_D155.
